@@ -407,17 +407,20 @@ fn emitted(stats: &mut Stats) {
         for mode in MODES {
             for prf in [false, true] {
                 for hmac in [0u8, 2] {
-                    let case = json!({"emitted": {"org": org, "mode": mode, "prf": prf, "hmac": hmac}});
-                    for f in emitted_one(org, mode, prf, hmac, &case) {
-                        stats.finding(f);
+                    // user ids: the default, the empty byte string, 64 bytes
+                    for user in 0..3u8 {
+                        let case = json!({"emitted": {"org": org, "mode": mode, "prf": prf, "hmac": hmac, "user": user}});
+                        for f in emitted_one(org, mode, prf, hmac, user, &case) {
+                            stats.finding(f);
+                        }
+                        stats.case(&case.to_string(), true, "emitted-credential");
                     }
-                    stats.case(&case.to_string(), true, "emitted-credential");
                 }
             }
         }
     }
 }
-fn emitted_one(org: Org, mode: Mode, prf: bool, hmac: u8, case: &Value) -> Vec<Finding> {
+fn emitted_one(org: Org, mode: Mode, prf: bool, hmac: u8, user: u8, case: &Value) -> Vec<Finding> {
     let mut fs = vec![];
     let store = Shared::new(RefStore::new());
     let mut client = mk_client(store.clone(), ScriptedUv::consenting(Log::new()), org, &AuthCfg { counter: true, id_len: None, hmac, hmac_mc: true });
@@ -429,7 +432,12 @@ fn emitted_one(org: Org, mode: Mode, prf: bool, hmac: u8, case: &Value) -> Vec<F
         })
     };
     let (rp_arg, _, _) = org.spec();
-    let reg = register(&mut client, org, mode, creation_options(Reg { rp_id: rp_arg.map(|s| s.into()), extensions: ext(), selection: Some(webauthn::AuthenticatorSelectionCriteria { authenticator_attachment: None, resident_key: None, require_resident_key: true, user_verification: Default::default() }), ..Default::default() }));
+    let user_id: Vec<u8> = match user {
+        1 => vec![],
+        2 => vec![0xff; 64],
+        _ => Reg::default().user_id,
+    };
+    let reg = register(&mut client, org, mode, creation_options(Reg { rp_id: rp_arg.map(|s| s.into()), user_id, extensions: ext(), selection: Some(webauthn::AuthenticatorSelectionCriteria { authenticator_attachment: None, resident_key: None, require_resident_key: true, user_verification: Default::default() }), ..Default::default() }));
     match reg {
         Ok(Ok(cr)) => {
             match par::catch(|| {
@@ -691,7 +699,7 @@ pub fn replay(ctx: &Ctx, case: &Value) -> Result<Vec<Finding>, String> {
     if let Some(e) = case.get("emitted") {
         let org: Org = serde_json::from_value(e["org"].clone()).map_err(|e| e.to_string())?;
         let mode: Mode = serde_json::from_value(e["mode"].clone()).map_err(|e| e.to_string())?;
-        return Ok(emitted_one(org, mode, e["prf"].as_bool().unwrap_or(false), e["hmac"].as_u64().unwrap_or(0) as u8, case));
+        return Ok(emitted_one(org, mode, e["prf"].as_bool().unwrap_or(false), e["hmac"].as_u64().unwrap_or(0) as u8, e["user"].as_u64().unwrap_or(0) as u8, case));
     }
     if case.get("client_data").is_some() {
         return Ok(client_data_one(case));
